@@ -463,7 +463,9 @@ theorem handle_ok (p : Peer) (op : Op) (hp : SI ps0 len0 N p)
     simp only [handle]
     split
     · exact init rfl rfl rfl
-    · split <;> exact init rfl rfl rfl
+    · split
+      · exact init rfl rfl rfl
+      · split <;> exact init rfl rfl rfl
   | mReject i b K =>
     simp only [handle]
     split
